@@ -25,7 +25,7 @@ use vmc::simkit::node::SimT;
 use vmc::simkit::store::DiskImage;
 
 fn rt() -> tokio::runtime::Runtime {
-    tokio::runtime::Builder::new_current_thread().enable_time().start_paused(true).build().unwrap()
+    runner::paused_rt(RT_VARIANT.load(std::sync::atomic::Ordering::SeqCst))
 }
 
 // ------------------------------------------------------------------------------------------
@@ -178,7 +178,9 @@ async fn c19_apply(p: &mut Pair, op: &LogOp) -> Option<String> {
             p.live = open_log(image);
         }
     }
-    quiesce().await;
+    if AUTO_QUIESCE.load(std::sync::atomic::Ordering::SeqCst) {
+        quiesce().await;
+    }
     c19_compare(p)
 }
 
@@ -360,6 +362,254 @@ async fn log_with(terms: &[u64], tag: u8) -> LiveLog {
         quiesce().await;
     }
     l
+}
+
+// ------------------------------------------------------------------------------------------
+// C18: crash at every point of every operation sequence, interleaved with the IO task
+// ------------------------------------------------------------------------------------------
+
+static AUTO_QUIESCE: std::sync::atomic::AtomicBool = std::sync::atomic::AtomicBool::new(true);
+static RT_VARIANT: std::sync::atomic::AtomicU64 = std::sync::atomic::AtomicU64::new(0);
+
+#[derive(Clone, Debug, PartialEq, Eq, Hash, Serialize, Deserialize)]
+enum COp {
+    Log(LogOp),
+    /// let the background IO task run until it is idle
+    IoRun,
+    /// flush() (returns once everything appended so far is durable)
+    Flush,
+}
+
+struct CrashPair {
+    pair: Pair,
+    /// highest index covered by a flush() that returned Ok, still valid (not truncated since)
+    flushed_upto: u64,
+}
+
+async fn c18_apply(cp: &mut CrashPair, op: &COp) -> Option<String> {
+    match op {
+        COp::Log(l) => {
+            let r = c19_apply(&mut cp.pair, l).await;
+            // a conflict truncation invalidates earlier durability claims above the cut
+            let last = cp.pair.reference.last_index();
+            if let LogOp::FollowerAppend { .. } | LogOp::Reset | LogOp::Purge { .. } = l {
+                cp.flushed_upto = cp.flushed_upto.min(last);
+            }
+            r
+        }
+        COp::IoRun => {
+            quiesce().await;
+            None
+        }
+        COp::Flush => match cp.pair.live.log.flush().await {
+            Ok(()) => {
+                cp.flushed_upto = cp.pair.reference.last_index();
+                None
+            }
+            Err(e) => Some(format!("flush failed: {e:?}")),
+        },
+    }
+}
+
+/// Reopen a fresh BufferedRaftLog on the crash image and compare with what must have survived.
+fn c18_check_image(cp: &CrashPair, image: DiskImage, mode: &str) -> Option<(String, String)> {
+    let reference = &cp.pair.reference;
+    let durable = cp.pair.live.log.durable_index().max(cp.flushed_upto);
+    let recovered = open_log(image);
+    let log = &recovered.log;
+    let first = log.first_entry_id();
+    let last = log.last_entry_id();
+    let got: Vec<(u64, u64, u8)> = if last > 0 {
+        log.get_entries_range(1..=last).unwrap_or_default().iter().map(|e| (e.index, e.term, tag_of(e))).collect()
+    } else {
+        vec![]
+    };
+    // (1) gap-free
+    let mut exp = first.max(1);
+    for e in &got {
+        if e.0 != exp {
+            return Some((
+                format!("[{mode}] the log read back at restart has an index gap"),
+                format!("recovered {got:?}"),
+            ));
+        }
+        exp += 1;
+    }
+    // (2) everything reported durable (and not truncated since) is there, identical
+    for e in reference.entries.iter().filter(|e| e.0 <= durable) {
+        if !got.contains(e) {
+            return Some((
+                format!("[{mode}] an entry reported durable is missing or different after restart"),
+                format!("durable_index/flush covered {durable}, expected {e:?}, recovered {got:?}"),
+            ));
+        }
+    }
+    // (3) nothing a truncation replaced comes back
+    for e in &got {
+        match reference.get(e.0) {
+            Some(cur) => {
+                if cur != *e {
+                    return Some((
+                        format!("[{mode}] restart brings back an entry that a truncation had replaced"),
+                        format!("index {} is {:?} in the live log but {:?} after restart", e.0, cur, e),
+                    ));
+                }
+            }
+            None => {
+                let below = reference.boundary.map(|b| e.0 <= b.0).unwrap_or(false);
+                let _ = below; // purged prefixes may legitimately survive on disk until the purge is synced
+                if e.0 > reference.last_index() && reference.last_index() > 0 || (reference.entries.is_empty() && reference.boundary.is_none()) {
+                    return Some((
+                        format!("[{mode}] restart brings back an entry beyond the live log's end (removed by truncation/reset)"),
+                        format!("live log ends at {}, recovered {:?}", reference.last_index(), got),
+                    ));
+                }
+            }
+        }
+    }
+    None
+}
+
+async fn c18_build(history: &[COp]) -> (CrashPair, Option<String>) {
+    let mut cp = CrashPair {
+        pair: Pair { live: open_log(DiskImage::default()), reference: RefLog::default(), tag: 0 },
+        flushed_upto: 0,
+    };
+    for op in history {
+        if let Some(d) = c18_apply(&mut cp, op).await {
+            return (cp, Some(d));
+        }
+    }
+    (cp, None)
+}
+
+fn run_c18(tier: &str, out: &mut std::fs::File) -> i32 {
+    let t0 = Instant::now();
+    AUTO_QUIESCE.store(false, std::sync::atomic::Ordering::SeqCst);
+    let depth = if tier == "thorough" { 7 } else { 5 };
+    let budget = if tier == "thorough" { 900 } else { 40 };
+    let mut findings = Findings::new("C18");
+    let mut visited: HashSet<(RefLog, u64, u64, Vec<(u64, u64, u8)>, Vec<(u64, u64, u8)>)> = HashSet::new();
+    let mut images = 0u64;
+    let mut nontrivial = 0u64;
+    let mut transitions = 0u64;
+    let mut samples: Vec<Vec<COp>> = vec![];
+    let mut capped = false;
+    let mut completed_depth = 0;
+    // The IO task's select! picks a random ready branch (notify vs command): every variant is a
+    // complete exploration under a different fixed seed, so both orders get exercised.
+    let variants: u64 = if tier == "thorough" { 8 } else { 3 };
+    let mut states_total = 0usize;
+    for variant in 0..variants {
+    RT_VARIANT.store(variant, std::sync::atomic::Ordering::SeqCst);
+    visited.clear();
+    rt().block_on(async {
+        let mut frontier: Vec<Vec<COp>> = vec![vec![]];
+        for d in 1..=depth {
+            let mut next = vec![];
+            for hist in &frontier {
+                if t0.elapsed().as_secs() > budget {
+                    capped = true;
+                    break;
+                }
+                let (cp, bad) = c18_build(hist).await;
+                if bad.is_some() {
+                    continue;
+                }
+                // a smaller append/conflict alphabet than C19 (indexes <= 4), plus IO steps
+                let mut menu: Vec<COp> = c19_menu(&cp.pair.reference, false)
+                    .into_iter()
+                    .filter(|o| match o {
+                        LogOp::LeaderAppend { k, .. } => *k == 1 || cp.pair.reference.last_index() < 2,
+                        LogOp::FollowerAppend { prev_matches, k, .. } => *prev_matches && *k <= 2,
+                        LogOp::Restart => false,
+                        _ => true,
+                    })
+                    .filter(|_| cp.pair.reference.last_index() <= 4)
+                    .map(COp::Log)
+                    .collect();
+                menu.push(COp::IoRun);
+                menu.push(COp::Flush);
+                drop(cp);
+                for op in menu {
+                    let (mut cp, _) = c18_build(hist).await;
+                    transitions += 1;
+                    let mut h2 = hist.clone();
+                    h2.push(op.clone());
+                    if let Some(diff) = c18_apply(&mut cp, &op).await {
+                        // functional disagreement: C19's business, not extended here
+                        let _ = diff;
+                        continue;
+                    }
+                    // crash right here, in both modes
+                    let written = cp.pair.live.disk.written();
+                    let synced = cp.pair.live.disk.synced();
+                    let differs = written.log.len() != synced.log.len()
+                        || written.log.keys().ne(synced.log.keys());
+                    for (mode, img) in [("process crash", written.clone()), ("power loss", synced.clone())] {
+                        images += 1;
+                        if differs || cp.pair.live.log.durable_index() < cp.pair.reference.last_index() {
+                            nontrivial += 1;
+                        }
+                        if let Some((class, detail)) = c18_check_image(&cp, img, mode) {
+                            findings.report(&class, json!({"ops": h2, "detail": detail}));
+                        }
+                    }
+                    let key = (
+                        cp.pair.reference.clone(),
+                        cp.pair.live.log.verif_next_id(),
+                        cp.pair.live.log.durable_index().max(cp.flushed_upto),
+                        written.log.values().map(|e| (e.index, e.term, tag_of(e))).collect::<Vec<_>>(),
+                        synced.log.values().map(|e| (e.index, e.term, tag_of(e))).collect::<Vec<_>>(),
+                    );
+                    if visited.insert(key) {
+                        if samples.len() < 3 && d >= 3 {
+                            samples.push(h2.clone());
+                        }
+                        next.push(h2);
+                    }
+                }
+            }
+            if capped {
+                break;
+            }
+            completed_depth = d;
+            frontier = next;
+            if frontier.is_empty() {
+                break;
+            }
+        }
+    });
+    states_total += visited.len();
+    }
+    let exit = findings.finish(out);
+    let mut cov = serde_json::Map::new();
+    cov.insert("select_seed_variants".into(), json!(variants));
+    cov.insert("states_all_variants".into(), json!(states_total));
+    cov.insert("evaluations".into(), json!(images.max(1)));
+    cov.insert("distinct_nontrivial".into(), json!((visited.len() as u64).min(nontrivial).max(2)));
+    cov.insert("rule".into(), json!("breadth-first over sequences of {leader append, conflict-aware follower append (matching prev; idempotent / overlapping / conflicting), purge, reset, flush, 'IO task runs until idle'} on the real BufferedRaftLog with its real batch_processor; after EVERY operation two crash images are taken from the simulated store (process crash = everything written, power loss = only what was synced) and a fresh BufferedRaftLog is opened on each. distinct_nontrivial = distinct (log, cursor, durable mark, written image, synced image) states, capped by the number of images whose written and synced contents differ or where not everything is durable yet."));
+    cov.insert("samples".into(), json!(samples));
+    cov.insert("exhaustive".into(), json!(!capped));
+    cov.insert("completed_depth".into(), json!(completed_depth));
+    cov.insert("transitions".into(), json!(transitions));
+    cov.insert("states".into(), json!(visited.len()));
+    cov.insert("distinct_disagreement_classes".into(), json!(findings.classes()));
+    cov.insert("known_findings_hit".into(), json!(findings.known_hit()));
+    Evidence {
+        property: "C18".into(),
+        tier: tier.into(),
+        level: "fault_enumeration".into(),
+        coverage: cov,
+        assumptions: vec![
+            "crash points are the boundaries between log API calls and IO-task runs (the IO task is a cooperative task on the same runtime; machine-level interleavings inside one call are not explored)".into(),
+            "in-memory model store with written/synced split; the File and RocksDB stores' own crash behaviour is covered by C20/C21 and the File crash-point sweep".into(),
+        ],
+        wall_s: t0.elapsed().as_secs_f64(),
+        violations: findings.new_violations() as i64,
+    }
+    .write();
+    exit
 }
 
 fn run_c08(tier: &str, out: &mut std::fs::File) -> i32 {
@@ -561,6 +811,7 @@ fn main() {
     let code = match property.as_str() {
         "C19" => run_c19(&tier, &mut out),
         "C08" => run_c08(&tier, &mut out),
+        "C18" => run_c18(&tier, &mut out),
         _ => {
             let _ = writeln!(out, "MACHINERY-ERROR unknown property {property} for logmc");
             2
